@@ -1,6 +1,10 @@
 package main
 
-import "go/types"
+import (
+	"go/types"
+
+	"golang.org/x/tools/go/ssa"
+)
 
 // specIfaceName gives the key of the interface specification for the interface-typed
 // spec expression xe of type t: the type's name, or "pkg.Struct.field" for a dependency
@@ -23,4 +27,10 @@ func (x *Exec) specIfaceName(env *SpecEnv, xe Expr, t types.Type) string {
 		}
 	}
 	return name
+}
+
+// isPureContract: fn carries a contract (its own or an assumed one) that declares it pure.
+func (x *Exec) isPureContract(fn *ssa.Function) bool {
+	ct := x.contractFor(fn)
+	return ct != nil && ct.Pure
 }
